@@ -43,6 +43,9 @@ type QueueScenario struct {
 
 	Budget  mc.Budget `json:"budget"`
 	Horizon int       `json:"horizon,omitempty"`
+	// ListenerLag: the store's informer listener runs as its own transition (later than the cache
+	// update and the queue controller's listener); one resync round happens before quiescence.
+	ListenerLag bool `json:"listenerLag,omitempty"`
 }
 
 type queueMem struct {
@@ -179,6 +182,11 @@ func (w *queueWorld) setStoreCount(want int64) {
 }
 
 func (w *queueWorld) build(b *mc.Base) {
+	if w.scn.ListenerLag {
+		// The store registers its listener first (index 0) in Recover.
+		b.Ctx.Set.Jobs.LagHandlers = map[int]bool{0: true}
+		b.ResyncMode = true
+	}
 	store, err := activejobstore.NewStore(b.Ctx)
 	if err != nil {
 		panic(err)
